@@ -12,6 +12,7 @@ from mirsym.values import *
 from mirsym import rx
 from mirsym.models.util import items, deref, conj, val_eq
 from native import oracle
+from checks import hobl
 
 UREM = z3.Function('urem_uf', z3.BitVecSort(64), z3.BitVecSort(64), z3.BitVecSort(64))
 CMD_NAMES = cmdref.CMD_NAMES
@@ -525,6 +526,7 @@ def main(chk):
     if len(seen) != 7:
         chk.note_inconclusive('vacuity: only commands %r were reached by O2' % sorted(seen))
 
+    hobl.handle_obligations(chk, chk.program('on'), {'C13'}, ['commands'])
 
 if __name__ == '__main__':
     run_check('C13', main)
